@@ -140,6 +140,20 @@ class C05(Check):
                     d[m["central_start"] + 20:m["central_start"] + 24] = sz.to_bytes(4, "little")
                     d[m["header_start"] + 18:m["header_start"] + 22] = sz.to_bytes(4, "little")
                     add(d, "aes-size")
+        # end records in unusual places: an end record within the first bytes of the input, followed by something that
+        # looks like a ZIP64 locator (and optionally a ZIP64 end record) where the reader looks for one -- relative to
+        # the END of the input --, for every small offset and comment length
+        import struct
+        for p0 in list(range(0, 24)) + [40, 60, 76, 77]:
+            for clen in (0, 1, 5):
+                eocd = struct.pack("<IHHHHIIH", 0x06054b50, 0, 0, r.choice([0, 1, 0xffff]), r.choice([0, 1, 0xffff]), r.choice([0, 46, 0xffffffff]), r.choice([0, p0, 0xffffffff]), clen)
+                for zoff in (0, p0, 1 << 40):
+                    loc = struct.pack("<IIQI", 0x07064b50, 0, zoff, 1)
+                    tail = bytes(22 + clen - 0)          # so that End - (20 + 22 + clen) is where `loc` starts
+                    add(bytes(r.randrange(1, 256) for _ in range(p0)) + eocd + loc + tail[:22 + clen - 22] + bytes(22), "eocd-early")
+                    add(bytes(p0) + eocd + bytes(clen) + loc + eocd[:4] + bytes(18), "eocd-early")
+                    z64 = struct.pack("<IQHHIIQQQQ", 0x06064b50, 44, 45, 45, 0, 0, 1, 1, 46, 0)
+                    add(z64 + bytes(p0) + loc + eocd + bytes(clen), "eocd-early")
         for _ in range(200 if quick else 20000):
             n = r.choice([0, 1, 21, 22, 23, 46, 100, 300])
             d = bytearray(r.randrange(256) for _ in range(n))
